@@ -60,6 +60,7 @@ def parseCmd (t : String) : Option Cmd :=
       | "P" => some .prediction
       | "C" => some .correction
       | "M" => some .stateModel
+      | "E" => some .exoModel
       | _ => none
     let b : Option Bool := match on with
       | "0" => some false
